@@ -45,6 +45,7 @@ fn main() {
     let verbose = args.iter().any(|a| a == "-v");
     match args[0].as_str() {
         "replay" => { std::process::exit(replay_file(&args[1], timeout_ms)); }
+        "selftest" => { std::process::exit(selftest(seed)); }
         p => {
             let Some((mut units, meta)) = props::units(p, tier, seed) else { eprintln!("unknown property {}", p); std::process::exit(2) };
             if let Some(only) = arg(&args, "--only") { units.retain(|u| u.id.contains(&only)); }
@@ -182,4 +183,45 @@ fn report(p: &str, tier: Tier, seed: u64, reports: &[UnitReport], meta: &props::
     if violations > 0 { return 1; }
     if !inconclusive.is_empty() { for i in inconclusive.iter().take(10) { println!("UNDECIDED {}", i); } return 2; }
     0
+}
+
+#[allow(dead_code)]
+mod test_data { include!("/repo/src/test_data.rs"); }
+/// Engine self-validation (Serval-style): every view of the catalogue is run natively at f64 and at `Sym` with constant
+/// inputs (exact rational execution of the same real code through the shim) on the crate's own TEST_DATA and on a seeded
+/// random stream; readiness must agree exactly and values to 1e-6 of their scale (native f64 cancellation noise reaches 1e-9). Validates the Float shim, not the crate.
+fn selftest(seed: u64) -> i32 {
+    use sliding_features::View;
+    use views::{build, echo, VK};
+    let mut streams: Vec<(String, Vec<f64>)> = vec![("TEST_DATA".into(), test_data::TEST_DATA.iter().copied().take(96).collect())];
+    let mut rng = views::Rng::new(seed ^ 0x5E1F);
+    streams.push(("seeded random with ties and zeros".into(), (0..96).map(|i| { let r = rng.below(2001) as f64 / 100.0 - 10.0; if i % 7 == 3 { 0.0 } else if i % 5 == 4 { (r / 4.0).round() } else { r } }).collect()));
+    streams.push(("positive".into(), (0..96).map(|_| 0.5 + rng.below(1000) as f64 / 100.0).collect()));
+    let mut cat: Vec<VK> = vec![];
+    for n in [1usize, 2, 3, 5, 8] { for v in props::c15::raw_wrappers(n) { if !cat.iter().any(|c| c.name() == v.name()) { cat.push(v); } } }
+    let (mut compared, mut views_run, mut bad) = (0u64, 0u64, 0u64);
+    for vk in &cat {
+        for (sname, xs) in &streams {
+            if vk.needs_positive() && sname != "positive" { continue; }
+            let nat = std::panic::catch_unwind(std::panic::AssertUnwindSafe(|| { let mut v = build::<f64>(vk, echo()); xs.iter().map(|x| { v.update(*x); v.last() }).collect::<Vec<_>>() }));
+            let mut ctx = sym::Ctx::new(5000);
+            ctx.mode = sym::Mode::Exact;
+            ctx.begin_path(vec![]);
+            sym::CTX.with(|c| *c.borrow_mut() = Some(ctx));
+            let symr = std::panic::catch_unwind(std::panic::AssertUnwindSafe(|| { let mut v = build::<sym::Sym>(vk, echo()); xs.iter().map(|x| { v.update(sym::cf(*x)); v.last().map(|o| num::ToPrimitive::to_f64(&o).unwrap_or(f64::NAN)) }).collect::<Vec<_>>() }));
+            sym::CTX.with(|c| *c.borrow_mut() = None);
+            views_run += 1;
+            match (nat, symr) {
+                (Ok(a), Ok(b)) => for (t, (p, q)) in a.iter().zip(b.iter()).enumerate() {
+                    compared += 1;
+                    let ok = match (p, q) { (None, None) => true, (Some(x), Some(y)) => (x - y).abs() <= 1e-6 * 1.0f64.max(x.abs()).max(y.abs()) || (x.is_nan() && y.is_nan()), _ => false };
+                    if !ok { bad += 1; if bad <= 10 { println!("SELFTEST MISMATCH {} on {} step {}: native {:?} vs Sym-exact {:?}", vk.name(), sname, t, p, q); } }
+                },
+                (Err(_), Err(_)) => {} // both reject (e.g. constructor assertion, or the same panic)
+                (a, b) => { bad += 1; println!("SELFTEST MISMATCH {} on {}: native panicked={} Sym-exact panicked={}", vk.name(), sname, a.is_err(), b.is_err()); }
+            }
+        }
+    }
+    println!("selftest: {} view/stream runs, {} step comparisons, {} mismatches", views_run, compared, bad);
+    if bad > 0 { 1 } else { 0 }
 }
